@@ -594,6 +594,8 @@ fn try_spawn_input_processing<'scope>(
         // this check, we'd keep reserving and spawning no-op tasks for as long as each no-op task
         // returned its reservation before we looked again.
         if resources.unprocessed.is_empty() {
+            #[cfg(wild_verif)]
+            crate::verif_ev!("LoopExitEmpty");
             return;
         }
 
